@@ -66,11 +66,20 @@ func (m *Machine) pickThread() *Thread {
 	if len(rs) == 1 {
 		return rs[0]
 	}
+	// several threads are runnable at a blocking point: the default is the lowest thread id;
+	// any other choice is paid from the same budget as a forced preemption
+	if m.ps.preempts >= m.cfgInt("preempt", 0) {
+		return rs[0]
+	}
 	alts := make([]*Term, len(rs))
 	for i := range alts {
 		alts[i] = TrueT
 	}
-	return rs[m.decide("sched-free", alts)]
+	ch := m.decide("sched-free", alts)
+	if ch != 0 {
+		m.ps.preempts++
+	}
+	return rs[ch]
 }
 
 // schedPoint is called after a synchronisation operation completed.
